@@ -330,7 +330,7 @@ def run_shard(ctx):
         k += 1
         big = ctx.rng.random() < 0.25
         try:
-            case = bc.make_case(ctx, max_classes=6 if big else 4, max_fields=7 if big else 5, n_objs=2, max_depth=4 if big else 3)
+            case = bc.make_case(ctx, max_classes=6 if big else 4, max_fields=7 if big else 5, n_objs=2, max_depth=4 if big else 3, adjacent_text=True)
         except Exception as e:  # noqa: BLE001
             ctx.violation(f"model-rejected/{bc.short_exc(e)}", f"{type(e).__name__}: {e}", {"fn": "noop"})
             continue
